@@ -147,7 +147,8 @@ def _ctor(chk: Check, bi) -> None:
     for n, i in cfg.info.items():
         if i.kind == "test" and isinstance(i.ast, ast.Compare) and len(i.ast.ops) == 1:
             t = i.ast
-            l, r = unparse(t.left), unparse(t.comparators[0])
+            from .c17 import base_name
+            l, r = base_name(unparse(t.left)), base_name(unparse(t.comparators[0]))
             op = type(t.ops[0]).__name__
             if (l, r, op) in (("initialized_size", "size", "Gt"), ("size", "initialized_size", "Lt")):
                 for b in cfg.g.successors(n):
